@@ -1,8 +1,8 @@
 // C15: vertex-order contracts of the tetrahedral kernel (read-only queries) against a brute-force reference built from the
 // stored halfface definitions.   shard params: 0 = base (c15_common.h), 1 = pre-operation (0 none, 1.. see pre_op)
-//   harness_c15_order      centre cell / halfface enumerated (constant), vertex and halfedge ARGUMENTS free symbolic
-//   harness_c15_order_sym  cell and halfface probes free symbolic as well
-#include "c15_common.h"
+//   centre cell / halfface enumerated (constant: a free symbolic centre gives symbolic loop bounds inside halfface_vertices(),
+//   measured: no verdict in 300 s on one tet); vertex and halfedge ARGUMENTS free symbolic
+#include "c15_order_checks.h"
 
 static inline int probe_below(int n) { unsigned x = v_nondet_u32(); v_assume(n > 0 ? x < (unsigned)n : x == 0); return (int)x; }
 
@@ -20,109 +20,17 @@ static void pre_op(TetMesh &m, unsigned op) {
   }
 }
 
-// ---- checks for one cell c (live tet) ; tv = symbolic vertex argument
-static void check_cell(const TetMesh &m, const Snap &s, int c, int tv) {
-  const int F = s.chf[c][0];
-  int ref[4]; bf_tuple(s, c, F, 0, ref);
-  // get_cell_vertices(ch): "1.-3. vertices of ch's first halfface, ccw, starting with the first from_vertex of the halfface's first halfedge. 4. the 4th vertex"
-  { std::vector<VH> r = m.get_cell_vertices(CH(c));
-    v_assert(vec_is(r, ref[0], ref[1], ref[2], ref[3]), "C15 get_cell_vertices(ch) == first halfface's vertices in stored order, then the apex"); }
-  // get_cell_vertices(ch, vh): "... in a specific order, starting with vh"
-  if (bf_cell_has_v(s, c, tv)) {
-    std::vector<VH> r = m.get_cell_vertices(CH(c), VH(tv));
-    v_assert(r.size() == 4 && r[0].idx() == tv, "C15 get_cell_vertices(ch,vh) starts with vh");
-    int p = bf_hf_pos(s, F, tv);
-    if (p >= 0) {
-      int e[4]; bf_tuple(s, c, F, p, e);
-      v_assert(vec_is(r, e[0], e[1], e[2], e[3]), "C15 get_cell_vertices(ch,vh), vh on the first halfface: its cyclic order from vh, then the apex");
-    }
-    if (r.size() == 4) {
-      int q[4] = { r[0].idx(), r[1].idx(), r[2].idx(), r[3].idx() };
-      v_assert(perm_parity(ref, q) == 0, "C15 get_cell_vertices(ch,vh) is an orientation-preserving (even) reordering of the cell's four vertices");
-    }
-    // vertex_opposite_halfface: "the first halfface of the tet ch that does not contain the vertex vh"
-    int exp = -1;
-    for (int k = 3; k >= 0; --k) if (!bf_hf_has_v(s, s.chf[c][k], tv)) exp = s.chf[c][k];
-    HFH o = m.vertex_opposite_halfface(CH(c), VH(tv));
-    v_assert(o.idx() == exp && exp >= 0, "C15 vertex_opposite_halfface(ch,vh) == first halfface of ch not containing vh");
-    if (o.is_valid() && snap_incident_cell(s, o.idx()) == c)
-      v_assert(m.halfface_opposite_vertex(o).idx() == tv, "C15 halfface_opposite_vertex(vertex_opposite_halfface(ch,vh)) == vh");
-  }
-  // tet vertex iterator: "vertices of the tet's first halfface, starting with the first halfedge's from_vertex, then the fourth vertex"
-  { TetVertexIter it = m.tv_iter(CH(c));
-    bool ok = true; int n = 0;
-    for (; it.valid() && n < 6; ++it, ++n) if (n < 4 && (*it).idx() != ref[n]) ok = false;
-    v_assert(ok && n == 4, "C15 tv_iter(ch) enumerates exactly the four vertices in get_cell_vertices order");
-    std::pair<TetVertexIter, TetVertexIter> rg = m.tet_vertices(CH(c));
-    int k = 0; bool ok2 = true;
-    for (TetVertexIter jt = rg.first; jt != rg.second && k < 6; ++jt, ++k) if (k < 4 && (*jt).idx() != ref[k]) ok2 = false;
-    v_assert(ok2 && k == 4, "C15 tet_vertices(ch) range enumerates the same four vertices"); }
-}
-
-// ---- checks for one halfface h of a live face; tv / the = symbolic vertex / halfedge arguments
-static void check_halfface(const TetMesh &m, const Snap &s, int h, int tv, int the) {
-  const int ic = snap_incident_cell(s, h);
-  if (ic == -2) return;                                   // halfface used by two live cells: outside the precondition
-  const int h0 = bf_hf_v(s, h, 0), h1 = bf_hf_v(s, h, 1), h2 = bf_hf_v(s, h, 2);
-  // TopologyKernel::get_halfface_vertices x3 ("Get vertices of a halfface [ordered to start from vh / from_vertex_handle(heh)]")
-  { std::vector<VH> r = m.get_halfface_vertices(HFH(h));
-    v_assert(vec_is3(r, h0, h1, h2), "C15 get_halfface_vertices(hfh) == from-vertices of its halfedges in stored order"); }
-  const int pv = bf_hf_pos(s, h, tv);
-  if (pv >= 0) {
-    std::vector<VH> r = m.get_halfface_vertices(HFH(h), VH(tv));
-    v_assert(vec_is3(r, bf_hf_v(s, h, pv), bf_hf_v(s, h, (pv + 1) % 3), bf_hf_v(s, h, (pv + 2) % 3)), "C15 get_halfface_vertices(hfh,vh) == cyclic order starting at vh");
-  }
-  const int hef = snap_he_from(s, the), het = snap_he_to(s, the);
-  const int pe = bf_hf_pos(s, h, hef);
-  if (!s.edel[the >> 1] && pe >= 0) {
-    std::vector<VH> r = m.get_halfface_vertices(HFH(h), HEH(the));
-    v_assert(vec_is3(r, bf_hf_v(s, h, pe), bf_hf_v(s, h, (pe + 1) % 3), bf_hf_v(s, h, (pe + 2) % 3)), "C15 get_halfface_vertices(hfh,heh) == cyclic order starting at from_vertex(heh)");
-  }
-  // halfface_opposite_vertex: "the vertex of the incident cell not contained in hfh; invalid if hfh is boundary"
-  VH ov = m.halfface_opposite_vertex(HFH(h));
-  if (ic == -1) {
-    v_assert(!ov.is_valid(), "C15 halfface_opposite_vertex(boundary hfh) is invalid");
-    std::vector<VH> r = m.get_cell_vertices(HFH(h));
-    v_assert(r.empty(), "C15 get_cell_vertices(boundary hfh) is empty");
-    return;
-  }
-  if (!bf_live_tet(s, ic)) return;
-  const int apex = bf_apex(s, ic, h);
-  v_assert(ov.idx() == apex && apex >= 0, "C15 halfface_opposite_vertex(hfh) == the vertex of the incident cell not on hfh");
-  if (ov.is_valid()) {
-    // mutually inverse -- in the sense the documentation allows: vertex_opposite_halfface returns a halfface of the cell not containing the vertex;
-    // a tet has exactly one, so it must be hfh again
-    v_assert(m.vertex_opposite_halfface(CH(ic), ov).idx() == h, "C15 vertex_opposite_halfface(incident_cell(hfh), halfface_opposite_vertex(hfh)) == hfh");
-  }
-  // get_cell_vertices(hfh): "1.-3. vertices of hfh, ccw, starting with the first from_vertex of the halfface's first halfedge. 4. the 4th vertex"
-  { std::vector<VH> r = m.get_cell_vertices(HFH(h));
-    v_assert(vec_is(r, h0, h1, h2, apex), "C15 get_cell_vertices(hfh) == hfh's vertices in stored order, then the apex"); }
-  // get_cell_vertices(hfh, heh): "1. heh.from_vertex 2. heh.to_vertex 3. 3rd vertex of hfh 4. 4th vertex; heh is expected to be incident to hfh"
-  if (!s.edel[the >> 1] && snap_count_he_in_hf(s, h, the) == 1) {
-    std::vector<VH> r = m.get_cell_vertices(HFH(h), HEH(the));
-    int third = (h0 != hef && h0 != het) ? h0 : ((h1 != hef && h1 != het) ? h1 : h2);
-    v_assert(vec_is(r, hef, het, third, apex), "C15 get_cell_vertices(hfh,heh) == (from(heh), to(heh), third vertex of hfh, apex)");
-  }
-}
-
-static void run_order(bool symbolic_centre) {
+static void run_order() {
   TetMesh m;
   build_tets(m, v_param(0));
   pre_op(m, v_param(1));
   Snap s; take_snapshot(m, s);
   check_shape(m, s);
-  if (!bf_shape_ok(s)) return;
+  if (!R_ok) return;
   const int tv = probe_below(s.nV), the = probe_below(2 * s.nE);
-  if (symbolic_centre) {
-    const int c = probe_below(s.nC), h = probe_below(2 * s.nF);
-    if (s.nC > 0 && bf_live_tet(s, c)) check_cell(m, s, c, tv);
-    if (s.nF > 0 && !s.fdel[h >> 1]) check_halfface(m, s, h, tv, the);
-  } else {
-    for (int c = 0; c < s.nC; ++c) if (bf_live_tet(s, c)) check_cell(m, s, c, tv);
-    for (int h = 0; h < 2 * s.nF; ++h) if (!s.fdel[h >> 1]) check_halfface(m, s, h, tv, the);
-  }
+  for (int c = 0; c < s.nC; ++c) if (r_live_tet(c)) check_cell(m, c, tv);
+  for (int h = 0; h < 2 * s.nF; ++h) if (!s.fdel[h >> 1]) check_halfface(m, h, tv, the);
   v_witness("C15 order end");
 }
 
-extern "C" void harness_c15_order() { run_order(false); }
-extern "C" void harness_c15_order_sym() { run_order(true); }
+extern "C" void harness_c15_order() { run_order(); }
